@@ -1,7 +1,7 @@
 """C10 -- ON ERROR / RESUME / RESUME NEXT: structural necessary conditions."""
 import ast
 
-from .. import registries as R
+from .. import pat, registries as R
 from ..astutil import dotted, const, unparse, walk_shallow
 from ..callgraph import CallGraph
 from ..cfg import build_cfg, repo_noreturn
@@ -325,7 +325,7 @@ def reserved_codes(ctx):
                     f"1->'next', other->target", eh.file, eh.line)
     # the 'next' marker compared in _trap
     _trap = repo.func('qvm.cpu', 'QvmCpu._trap')
-    ok = "self.trap_target == 'next'" in unparse(_trap.node)
+    ok = pat.has("self.trap_target == 'next'", _trap.node)
     ctx.instance(rule, f'{_trap.file}:QvmCpu._trap:next-marker')
     if not ok:
         ctx.finding(rule, f'{_trap.file}:QvmCpu._trap:next-marker',
